@@ -262,6 +262,7 @@ class ParserScenario:
             (r'parse::<f64>$', self.s_parse_f64), (r'f64::is_finite$|impl f64>::is_finite$', self.s_is_finite), (r'<f64 as Into<JsonValue>>::into$|<JsonValue as From<f64>>::from$', self.s_from_f64),
             (r'^create_unexpected_character|json_parser::create_unexpected_character', self.s_unexpected),
             (r'<u32 as From<u8>>::from$', lambda ex, st, f, a, t: [(st, BV(z3.ZeroExt(24, a[0].t)))]),
+            (r'<usize as From<u8>>::from$|<u64 as From<u8>>::from$', lambda ex, st, f, a, t: [(st, BV(z3.ZeroExt(56, a[0].t)))]),
             (r'char::from_u32$|impl char>::from_u32$', self.s_char_from_u32),
             (r'impl char>::encode_utf8$', self.s_encode_utf8), (r'impl str>::as_bytes$', s_identity),
             (r'<std::ops::Range<.*> as Iterator>::next$', self.s_range_next), (r'<std::ops::Range<.*> as IntoIterator>::into_iter$', s_identity),
@@ -994,6 +995,8 @@ def _selfcheck_one(args):
                 if e[2] != kind: okp = False
             if okp: pick = d if pick is None else 'ambiguous'
         if pick is None or pick == 'ambiguous':
+            if any(d.havoc for d in outs):
+                return {'data': repr(data), 'skipped': 'the tree contains a call / construct the executor does not model: ' + str(next(d.havoc for d in outs if d.havoc)[0])}
             return {'data': repr(data), 'error': f'concrete MIR run does not give exactly one path ({len(outs)} paths)'}
         d = pick
         if d.status != 'returned': seq.append(('panic',)); break
@@ -1034,6 +1037,8 @@ def selfcheck(ctx):
     n_ok = 0
     for data, r in zip(lits, results):
         if 'error' in r: raise Broken(f'translator self-check: {r}')
+        if 'skipped' in r:
+            run.notes.append(f'translator self-check skipped on {r["data"]}: {r["skipped"]}'); continue
         real = run_jawk(ctx, ['--style', 'consise', '--on-error', 'stdout'], data)
         seq = []
         for ln in real['stdout'].decode('utf-8', errors='replace').split('\n'):
